@@ -24,6 +24,24 @@ _Any = NewType('_Any', int)
 _scalar_constructor = yaml.constructor.SafeConstructor()
 
 
+def _float_to_yaml(value: float) -> str:
+    """Writes a float the way YAML (and PyYAML) spells it.
+
+    Python's inf, nan and 1e+22 are not floats in YAML, they are
+    .inf, .nan and 1.0e+22.
+    """
+    if value != value:
+        return '.nan'
+    if value == float('inf'):
+        return '.inf'
+    if value == float('-inf'):
+        return '-.inf'
+    text = repr(value).lower()
+    if '.' not in text and 'e' in text:
+        text = text.replace('e', '.0e', 1)
+    return text
+
+
 class Node:
     """A wrapper class for yaml Nodes that provides utility functions.
 
@@ -129,6 +147,8 @@ class Node:
         """
         if isinstance(value, bool):
             value_str = 'true' if value else 'false'
+        elif isinstance(value, float):
+            value_str = _float_to_yaml(value)
         else:
             value_str = str(value)
         start_mark = self.yaml_node.start_mark
@@ -276,7 +296,8 @@ class Node:
             value_node = yaml.ScalarNode('tag:yaml.org,2002:int', str(value),
                                          start_mark, end_mark)
         elif isinstance(value, float):
-            value_node = yaml.ScalarNode('tag:yaml.org,2002:float', str(value),
+            value_node = yaml.ScalarNode('tag:yaml.org,2002:float',
+                                         _float_to_yaml(value),
                                          start_mark, end_mark)
         elif value is None:
             value_node = yaml.ScalarNode('tag:yaml.org,2002:null', '',
